@@ -5,6 +5,7 @@ import ast
 import struct
 
 from ..cfg import CFG
+from ..core import ordkey
 from ..core import (AnalysisError, DefRef, NotConst, PartialRef, Ref, call_name, calls_in, dotted, func_params, get_kw, norm,
                     walk_no_nested, expand_aliases, single_assign_aliases)
 from .c01 import check_pack_exclusion, tuple_arity
@@ -243,11 +244,15 @@ def run(ctx):
     body = rb.if_node
     # expected_len
     exp = None
+    # the descriptor of this record: the object whose recordType._unpack builds the result
+    fin = [c for c in ast.walk(body) if isinstance(c, ast.Call) and isinstance(c.func, ast.Attribute) and c.func.attr == "_unpack" and isinstance(c.func.value, ast.Attribute)
+           and c.func.value.attr == "recordType"]
+    dvar = norm(fin[0].func.value.value) if fin else "desc"
     for st in ast.walk(body):
         if isinstance(st, ast.Assign) and isinstance(st.targets[0], ast.Name) and "len(RESERVED_FIELDS)" in norm(st.value) and "fields" in norm(st.value):
             exp = st.targets[0].id
-            ctx.check(norm(st.value).replace(" ", "") in ("len(desc.fields)+len(RESERVED_FIELDS)", "len(RESERVED_FIELDS)+len(desc.fields)"), "R2.5", "unpack_obj:record:expected-length",
-                      f"expected length is {norm(st.value)}", st, "len(desc.fields) + len(RESERVED_FIELDS)")
+            ctx.check(norm(st.value).replace(" ", "") in (f"len({dvar}.fields)+len(RESERVED_FIELDS)", f"len(RESERVED_FIELDS)+len({dvar}.fields)"), "R2.5", "unpack_obj:record:expected-length",
+                      f"expected length is {norm(st.value)}", st, f"len({dvar}.fields) + len(RESERVED_FIELDS)")
     if exp is None:
         raise AnalysisError("R2.5: expected length computation not found")
     ver = None
@@ -280,7 +285,7 @@ def run(ctx):
             elif isinstance(st, ast.AugAssign) and norm(st.target) == valvar and isinstance(st.op, ast.Add) and isinstance(st.value, ast.Tuple):
                 appended += len(st.value.elts)
                 appended_is_version &= all(norm(e) == ver for e in st.value.elts)
-        ok = kept is not None and kept[0] == 1 and kept[1] + appended == 0 and appended == 1 and appended_is_version and ver_stmt.lineno < trunc[0].lineno
+        ok = kept is not None and kept[0] == 1 and kept[1] + appended == 0 and appended == 1 and appended_is_version and ordkey(ver_stmt) < ordkey(trunc[0])
         ctx.check(ok, "R2.5", "unpack_obj:record:truncation",
                   f"after truncation the record keeps {exp}{kept[1]:+d} leading value(s) plus {appended} appended value(s)" if kept else "truncation shape not recognised" +
                   "; the format requires the declared+reserved leading values with the ORIGINAL last value as version (an extra metadata value would "
